@@ -1,7 +1,7 @@
 PROP = {
     "id": "C34",
     "theorem_modules": ["Verif.Properties.C34"],
-    "min_theorems": 8,
+    "min_theorems": 11,
     "required_theorems": [
         "Verif.Properties.C34.peephole_jumps",
         "Verif.Properties.C34.peephole_jumps_land",
@@ -10,6 +10,9 @@ PROP = {
         "Verif.Properties.C34.simulation_stmt_partial",
         "Verif.Properties.C34.simulation_body_partial",
         "Verif.Properties.C34.simulation_call_partial",
+        "Verif.Properties.C34.call_depth_witness",
+        "Verif.Properties.C34.call_depth_interp_first",
+        "Verif.Properties.C34.call_depth_agree_partial",
     ],
     "streams": [
         {"name": "vmeq", "driver": "drv_lang",
@@ -43,11 +46,20 @@ PROP = {
                   "match but decline - optional-, supertype- and path-typed constants - and rewritten windows in front of "
                   "conditional expressions, if/else, loops, switch, ??, if-let). Stream `peep` feeds real instruction lists "
                   "(named functions, methods, function expressions, inner functions) and synthetic lists (random tokens; "
-                  "structured lists of rewritten / declined windows with jumps to unit boundaries) to the Lean port.",
+                  "structured lists of rewritten / declined windows with jumps to unit boundaries) to the Lean port. "
+                  "Call depth: a `vmeq` family runs recursion near a small configured StackDepthLimit; the engines count "
+                  "differently (known finding call-depth-counts-argument-nesting: the interpreter counts every invocation "
+                  "expression from before its arguments are evaluated, natives included, the VM counts frames of compiled "
+                  "functions); an abstract model of the two counters proves the divergence (call_depth_witness), its single "
+                  "direction (call_depth_interp_first) and agreement for runs without argument-nested or native calls "
+                  "(call_depth_agree_partial).",
     "level_note": "proof (fragment) + CC; the real compiler is tied by behaviour (stream vmeq), the peephole port on real "
                   "instruction lists (stream peep).",
     "assumptions": ["muCadence fragment L0/L1 for the model comparison; the Go-vs-Go comparison covers whatever the generator emits"],
     "trusted_base": ["hand-written models Verif.Model.Lang.* validated by streams vmeq / peep",
+                     "Verif.Model.Lang.CallDepth (call-depth counters of both engines over an abstract invocation forest): "
+                     "written from the source, not run by a driver; its predictions for nested/plain recursion at limit 10 "
+                     "are the corpus lines corpus/vmeq/known-call-depth-counts-argument-nesting.txt",
                      "bridge harness/internal/sx", "drivers Drv/Lang.lean, Drv/Peep.lean",
                      "hook /repo/runtime/verif_hooks.go (peephole switch, build tag verif)"],
 }
